@@ -139,6 +139,53 @@ def _leaves(exprs, simple, opaque, params, depth=5):
     return out, allx
 
 
+def _projections(exprs, name) -> set:
+    """attributes / methods of `name` that the expressions read: `name.a`, `name.m()` -> {a, m}"""
+    out = set()
+    for e in exprs:
+        for a in ast.walk(e):
+            if isinstance(a, ast.Attribute) and isinstance(a.value, ast.Name) and a.value.id == name:
+                out.add(a.attr)
+    return out
+
+
+ALLOCATORS = ("zeros", "empty", "ones", "full", "zeros_like", "empty_like", "ones_like", "full_like", "list", "dict", "set", "defaultdict", "array")
+
+
+def _fillers(fn, vname: str) -> list:
+    """expressions that flow into a container bound to `vname` after its allocation: right sides of `vname[...] = e` / `vname[...] op= e`,
+    arguments of `vname.append/extend/add/update(...)` (anywhere in fn, nested defs included), and -- when a nested def does such a store --
+    the arguments of every call of fn that passes that nested def (the traversal / map that drives the filling)"""
+    out, filling_defs = [], set()
+    def stores_in(node):
+        res = []
+        for n in ast.walk(node):
+            if isinstance(n, (ast.Assign, ast.AugAssign)):
+                tg = n.targets if isinstance(n, ast.Assign) else [n.target]
+                for t in tg:
+                    b = t
+                    while isinstance(b, ast.Subscript):
+                        b = b.value
+                    if isinstance(t, ast.Subscript) and isinstance(b, ast.Name) and b.id == vname:
+                        res.append(n.value)
+                        res.append(t.slice)
+            if isinstance(n, ast.Call) and isinstance(n.func, ast.Attribute) and isinstance(n.func.value, ast.Name) and n.func.value.id == vname \
+                    and n.func.attr in ("append", "extend", "add", "update", "insert", "setdefault"):
+                res.extend(n.args)
+        return res
+    out.extend(stores_in(fn))
+    for f in ast.walk(fn):
+        if f is not fn and isinstance(f, (ast.FunctionDef, ast.AsyncFunctionDef, ast.Lambda)) and stores_in(f):
+            filling_defs.add(getattr(f, "name", None))
+    if filling_defs:
+        for c in ast.walk(fn):
+            if isinstance(c, ast.Call):
+                passed = [a for a in list(c.args) + [k.value for k in c.keywords] if isinstance(a, ast.Name) and a.id in filling_defs]
+                if passed:
+                    out.extend(list(c.args) + [k.value for k in c.keywords])
+    return out
+
+
 def _lifetime(D, fn, simple, params):
     root = D
     while isinstance(root, (ast.Attribute, ast.Subscript, ast.Call)):
@@ -236,6 +283,11 @@ def check(ctx, col, rule: str, modules: tuple, what_prop: str = "a cached value 
                 varying |= params
             vin, vexp = _leaves([V], simple, opaque, params)
             kin, kexp = _leaves([K], simple, opaque, params)
+            if isinstance(V, ast.Name) and V.id in simple and V.id not in params and any(
+                    isinstance(v, ast.Call) and (dotted(v.func) or "").rsplit(".", 1)[-1] in ALLOCATORS or isinstance(v, (ast.List, ast.Dict, ast.Set)) for v in simple[V.id]):
+                # the value is a container allocated here and filled afterwards: what it is filled from belongs to the value
+                fin, fexp = _leaves(_fillers(fn, V.id), simple, opaque, params)
+                vin, vexp = vin | (fin - {V.id}), vexp + fexp
             vin, kin = vin & varying, kin & varying
             missing = sorted(vin - kin - {"self", "cls"})
             proj = sorted(n for n in (vin & kin) if any(_whole_uses(e, n) for e in vexp) and not any(_whole_uses(e, n) for e in kexp))
@@ -258,6 +310,13 @@ def check(ctx, col, rule: str, modules: tuple, what_prop: str = "a cached value 
                 col.bad(rule, q, d.loc(st), what_prop,
                         f"`{norm_src(st)[:80]}`: the value is computed from `{missing[0]}`, which the key `{norm_src(K)}` does not mention: a later request with another "
                         f"`{missing[0]}` gets the value kept for the first one", stmt=f"memo:{dsrc}", definite=True)
+            elif not proj and (pdiff := [(n, sorted(_projections(vexp, n) - _projections(kexp, n)), sorted(_projections(kexp, n))) for n in sorted(vin & kin)
+                                         if n not in ("self", "cls") and not any(_whole_uses(e, n) for e in kexp) and not any(_whole_uses(e, n) for e in vexp)
+                                         and _projections(kexp, n) and _projections(vexp, n) - _projections(kexp, n)]):
+                n_, extra, have = pdiff[0]
+                col.bad(rule, q, d.loc(st), what_prop,
+                        f"`{norm_src(st)[:80]}`: the key mentions `{n_}` only through {', '.join(f'{n_}.{a}' for a in have)}, the value is computed from "
+                        f"{', '.join(f'{n_}.{a}' for a in extra[:4])}: two different `{n_}` that agree on the key's attributes share one value", stmt=f"memo:{dsrc}", definite=True)
             elif proj:
                 col.bad(rule, q, d.loc(st), what_prop,
                         f"`{norm_src(st)[:80]}`: the key `{norm_src(kexp[-1])[:50]}` mentions only attributes of `{proj[0]}` while the value is computed from `{proj[0]}` itself: "
